@@ -54,6 +54,15 @@ def run(chk, repo, tier):
             cs = p.calls(f'{SPEC}.{meth}')
             ok = len(cs) == 1 and cs[0].bound.get('other') == S('other') and p.ret == cs[0].result
         chk.ob('C13-a', 'T-operator', f'{SPEC}.{dunder}', f'delegates to {meth}(other)', ok, '', fd.loc())
+        # ... with the documented defaults of the method: an operator that chooses a sampling, an interpolation or a fill value
+        # of its own makes `a / b` something else than `a.divide(b)`
+        import ast as _ast
+        extra = []
+        for node in _ast.walk(fd.node):
+            if isinstance(node, _ast.Call) and isinstance(node.func, _ast.Attribute) and node.func.attr == meth:
+                extra += [k.arg or '**' for k in node.keywords] + [f'positional #{i + 1}' for i in range(1, len(node.args))]
+        chk.ob('C13-a', 'T-operator', f'{SPEC}.{dunder}', f'hands {meth} the operand only (sampling, method and fill value stay the defaults)',
+               not extra, f'also passes {", ".join(extra)}' if extra else '', fd.loc())
         fm = cls.find_method(meth)
         _, paths, _ = analyse(repo, fm)
         ok, det = bool(returns(paths)), ''
